@@ -97,3 +97,18 @@ Example C11_example :
   push_neg [1; -(2); 3] = [1 - -(2); -(2) - -(2); 3 - -(2)] /\ push_neg [1; 2] = [1; 2] /\
   add_zero (1#2) [0; 1] = [0 + (1#2); 1 + (1#2)] /\ add_zero (1#2) [2; 1] = [2; 1].
 Proof. repeat split; reflexivity. Qed.
+
+(* criteria stored in 8/16/32-bit integers (repaired by a fix: commit, witness of the old behaviour:
+   Findings.push_neg_int8_refuted): shifting after widening to 64 bits never wraps, so the shifted criterion has
+   minimum 0 *)
+From SKC Require Import Model.IntStorage Findings.
+Theorem C11_push_negatives_on_narrow_integers : forall v,
+  v <> [] -> Forall (fun x => (- 2 ^ 31 <= x < 2 ^ 31)%Z) v -> (zmin v < 0)%Z ->
+  zmin (push_neg_wrapped 64 v) = 0%Z.
+Proof. exact push_neg_repaired_min_zero. Qed.
+Print Assumptions C11_push_negatives_on_narrow_integers.
+
+Theorem C11_push_negatives_in_the_storage_type_wraps :
+  exists v, Forall (fun x => (-128 <= x < 128)%Z) v /\ zmin (push_neg_wrapped 8 v) <> 0%Z.
+Proof. exact push_neg_int8_refuted. Qed.
+Print Assumptions C11_push_negatives_in_the_storage_type_wraps.
